@@ -1009,9 +1009,17 @@ func (t *txattrwalk) handle(cs *connState) message {
 			return linux.EINVAL
 		}
 		size = len(buf)
+
+		// The new fid gets a File of its own (a clone, as for a walk with
+		// no names): it is clunked on its own, and clunking a fid closes
+		// its File.
+		_, xattrFile, err := ref.file.Walk(nil)
+		if err != nil {
+			return err
+		}
 		newRef := &fidRef{
 			server: cs.server,
-			file:   ref.file,
+			file:   xattrFile,
 			pendingXattr: pendingXattr{
 				op:   xattrWalk,
 				name: t.Name,
